@@ -335,15 +335,29 @@ func (in *Exec) binop(op token.Token, tx, ty types.Type, x, y value) value {
 		}
 	case FloatV:
 		yv := y.(FloatV)
+		if xv.Sym != nil || yv.Sym != nil {
+			a, b := in.floatInt(xv), in.floatInt(yv)
+			switch op {
+			case token.LSS:
+				return tb.Slt(a, b)
+			case token.LEQ:
+				return tb.Sle(a, b)
+			case token.GTR:
+				return tb.Slt(b, a)
+			case token.GEQ:
+				return tb.Sle(b, a)
+			}
+			in.inconclusive("arithmetic on a symbolic float")
+		}
 		is32 := false
 		if b, ok := tx.Underlying().(*types.Basic); ok && b.Kind() == types.Float32 {
 			is32 = true
 		}
 		r := func(f float64) value {
 			if is32 {
-				return FloatV{f32(f)}
+				return FloatV{F: f32(f)}
 			}
-			return FloatV{f}
+			return FloatV{F: f}
 		}
 		switch op {
 		case token.ADD:
@@ -438,7 +452,7 @@ func (in *Exec) unop(fr *frame, instr *ssa.UnOp, x value) value {
 		case *Term:
 			return tb.Neg(x)
 		case FloatV:
-			return FloatV{-x.F}
+			return FloatV{F: -x.F}
 		}
 	case token.XOR:
 		return tb.BNot(x.(*Term))
@@ -522,14 +536,17 @@ func (in *Exec) conv(tDst, tSrc types.Type, x value) value {
 		switch xv := x.(type) {
 		case FloatV:
 			if bd.Kind() == types.Float32 {
-				return FloatV{f32(xv.F)}
+				return FloatV{F: f32(xv.F)}
 			}
 			return xv
 		case *Term:
-			if !xv.IsConst() {
-				in.inconclusive("conversion of a symbolic integer to float")
-			}
 			_, signed, _ := typeWidth(tSrc)
+			if !xv.IsConst() {
+				if signed {
+					return FloatV{Sym: tb.Sext(xv, 64)}
+				}
+				return FloatV{Sym: tb.Zext(xv, 64)}
+			}
 			var f float64
 			if signed {
 				f = float64(xv.SInt())
@@ -539,7 +556,7 @@ func (in *Exec) conv(tDst, tSrc types.Type, x value) value {
 			if bd.Kind() == types.Float32 {
 				f = f32(f)
 			}
-			return FloatV{f}
+			return FloatV{F: f}
 		}
 	}
 	if wd, _, ok := typeWidth(bd); ok {
@@ -558,6 +575,12 @@ func (in *Exec) conv(tDst, tSrc types.Type, x value) value {
 			return tb.Zext(xv, wd)
 		case FloatV:
 			_, dsigned, _ := typeWidth(bd)
+			if xv.Sym != nil {
+				if wd >= 64 {
+					return xv.Sym
+				}
+				return tb.Extract(xv.Sym, wd-1, 0)
+			}
 			f := math.Trunc(xv.F)
 			if dsigned {
 				return tb.Const(wd, uint64(int64(f)))
@@ -890,9 +913,9 @@ func (in *Exec) callBuiltin(caller *frame, fn *ssa.Builtin, args []value) value 
 			case FloatV:
 				av := a.(FloatV)
 				if isMin {
-					res = FloatV{math.Min(r.F, av.F)}
+					res = FloatV{F: math.Min(r.F, av.F)}
 				} else {
-					res = FloatV{math.Max(r.F, av.F)}
+					res = FloatV{F: math.Max(r.F, av.F)}
 				}
 			default:
 				in.inconclusive("min/max on " + fmt.Sprintf("%T", res))
